@@ -56,13 +56,74 @@ Qed.
 Lemma frame_call_mk f : frame (@call_mk K V T f).
 Proof. unfold call_mk. apply frame_bind; [apply frame_emit|]. intros _. apply frame_cbo. Qed.
 
-(* unwinding over a well-formed local container: its destructor is safe *)
+(* the unwinding destructor of a pair never panics and leaves [self] alone *)
+Lemma unwind_pair_nopanic p (w : world) :
+  wp (unwind_pair E p) (fun _ w' => self w' = self w) (fun _ => False) w.
+Proof.
+  unfold unwind_pair. apply wp_bind. apply wp_emit.
+  apply wp_bind. apply wp_cbd. intros bk s. apply wp_bind. apply wp_cbd. intros bv s'.
+  apply wp_ret. reflexivity.
+Qed.
+
+(* Destructors run WHILE UNWINDING over slots [i, i+n): all of them must be
+   live; it never panics; afterwards these slots are empty, slots outside are
+   as before, length and capacity are not touched *)
+Definition unwound_range (n i : nat) (w w' : world) : Prop :=
+  len (self w') = len (self w) /\ cap (self w') = cap (self w) /\
+  (forall j, i <= j < i + n -> nth_error (slots (self w')) j = Some None) /\
+  (forall j, j < i \/ i + n <= j -> nth_error (slots (self w')) j = nth_error (slots (self w)) j).
+
+Lemma unwind_range_spec n : forall i (w : world),
+  (forall j, i <= j < i + n -> live (self w) j) ->
+  wp (unwind_range E n i) (fun _ w' => unwound_range n i w w') (fun _ => False) w.
+Proof.
+  induction n as [|n IH]; intros i w Hl; cbn [unwind_range].
+  - apply wp_ret. unfold unwound_range. repeat split; auto. intros j Hj. lia.
+  - destruct (Hl i ltac:(lia)) as [p Hp].
+    assert (Hic : i < length (slots (self w))).
+    { apply nth_error_Some. rewrite Hp. discriminate. }
+    apply wp_bind. eapply wp_p_read; [exact Hp|].
+    apply wp_bind. eapply wp_mono; [apply unwind_pair_nopanic | | intros w' []]; cbn beta.
+    intros _ w' Hs.
+    eapply wp_mono; [apply IH | | intros w'' []]; cbn beta.
+    + intros j Hj. rewrite Hs. cbn [with_self self]. apply live_set_slot_neq; [lia | apply Hl; lia].
+    + intros _ w'' (H1 & H2 & H3 & H4). unfold unwound_range. rewrite Hs in H1, H2, H4.
+      cbn [with_self self set_slot_m len slots] in H1, H2, H4.
+      split; [exact H1|]. split; [rewrite H2; apply cap_set_slot|]. split.
+      * intros j Hj. destruct (Nat.eq_dec i j) as [<-|Hne].
+        -- rewrite H4 by lia. apply nth_error_upd_eq. exact Hic.
+        -- apply H3. lia.
+      * intros j Hj. rewrite H4 by lia. apply nth_error_upd_neq. lia.
+Qed.
+
+(* the unwinding destructor of a well-formed container: never UB, never
+   panics; every slot [0,len) has been read, the rest is untouched *)
+Lemma unwind_map_spec (w : world) :
+  WF (self w) ->
+  wp (unwind_map E) (fun _ w' => unwound_range (len (self w)) 0 w w') (fun _ => False) w.
+Proof.
+  intros [Hl Hs]. unfold unwind_map. apply wp_bind. apply wp_get_len.
+  apply unwind_range_spec. intros j Hj. apply Hs. lia.
+Qed.
+
+(* unwinding over a well-formed local container: its destructor is safe.
+   General rule: the panic postcondition is established from what the
+   unwinding destructor leaves behind *)
+Lemma wp_finally_drop_gen {A} (c : M A) (Qn : A -> world -> Prop) (Qp : world -> Prop) w :
+  wp c Qn (fun w' => WF (self w') /\
+                     forall w'', unwound_range (len (self w')) 0 w' w'' -> Qp w'') w ->
+  wp (finally_drop E c) Qn Qp w.
+Proof.
+  unfold wp at 1 2, finally_drop. destruct (c w) as [a w'|w'|]; auto.
+  intros [Hw' HQ]. pose proof (unwind_map_spec w' Hw') as Hd. unfold wp in Hd.
+  destruct (unwind_map E w') as [u w''|w''|]; [apply HQ; exact Hd | destruct Hd | destruct Hd].
+Qed.
+
 Lemma wp_finally_drop {A} (c : M A) (Qn : A -> world -> Prop) w :
   wp c Qn (fun w' => WF (self w')) w -> wp (finally_drop E c) Qn (fun _ => True) w.
 Proof.
-  unfold wp at 1 2, finally_drop. destruct (c w) as [a w'|w'|]; auto.
-  intros Hw'. pose proof (drop_map_safe E w' Hw') as Hd. unfold wp in Hd.
-  destruct (drop_map E w'); auto.
+  intros H. apply wp_finally_drop_gen. eapply wp_mono; [exact H | auto |]; cbn beta.
+  intros w' Hw'. split; [exact Hw' | intros; exact I].
 Qed.
 
 (* strengthened insert_ii: the returned index is live afterwards *)
@@ -72,7 +133,7 @@ Lemma insert_ii_spec k v u w :
      (fun r w' => inv_post w w' /\ fst r < len (self w')) (inv_post w) w.
 Proof.
   intros Hw. unfold insert_ii. apply wp_bind.
-  apply wp_on_unwind_frame; [apply frame_unwind_pair|].
+  apply wp_on_unwind_frame; [apply frame_unwind_args|].
   eapply wp_mono; [apply scan_spec; [intros; apply frame_test_k | exact Hw] | |]; cbn beta.
   - intros [i|] w' [Hs Hi].
     + destruct (WF_live _ _ Hw Hi) as [p Hp].
@@ -85,7 +146,7 @@ Proof.
         apply wp_ret. unfold inv_post. simp_w. rewrite Hs. cbn [fst].
         split; [split; [apply WF_set_slot_some; auto | apply cap_set_slot] | exact Hi].
     + apply wp_bind. apply wp_get_len. apply wp_bind. apply wp_get_cap.
-      apply wp_bind. apply wp_on_unwind_frame; [apply frame_unwind_pair|].
+      apply wp_bind. apply wp_on_unwind_frame; [apply frame_unwind_args|].
       apply wp_bind. apply wp_dbg_assert.
       * intros _. apply wp_check_index.
         -- intros Hc. apply wp_bind. apply wp_p_write_checked.
